@@ -10,6 +10,12 @@
 
 #include <stddef.h>  // size_t
 
+#ifdef BBLANCHON_ARDUINOJSON_VERIF
+namespace verif {
+struct Inspector;
+}
+#endif
+
 ARDUINOJSON_BEGIN_PRIVATE_NAMESPACE
 
 class VariantData;
@@ -66,6 +72,9 @@ class CollectionIterator {
 };
 
 class CollectionData {
+#ifdef BBLANCHON_ARDUINOJSON_VERIF
+  friend struct ::verif::Inspector;
+#endif
   SlotId head_ = NULL_SLOT;
   SlotId tail_ = NULL_SLOT;
 
